@@ -601,6 +601,14 @@ def _restrict_cond(c, facts: "Facts"):
     if v is not None:
         return Rat.const(1 if v else 0)
     at = c.as_atom()
+    if at is not None and at.op == "ite" and all(isinstance(x, Rat) for x in at.args):
+        c0 = _restrict_cond(at.args[0], facts)
+        v0 = facts.lookup(c0)
+        if v0 is True:
+            return _restrict_cond(at.args[1], facts)
+        if v0 is False:
+            return _restrict_cond(at.args[2], facts)
+        return mk_ite(c0, _restrict_cond(at.args[1], facts.assume(c0, True)), _restrict_cond(at.args[2], facts.assume(c0, False)), _restricted=True)
     if at is not None and at.op in ("and", "or") and all(isinstance(x, Rat) for x in at.args):
         return mk_bool(at.op, *[_restrict_cond(x, facts) for x in at.args])
     if at is not None and at.op == "not" and isinstance(at.args[0], Rat):
@@ -675,6 +683,21 @@ def mk_ite(c: Rat, a, b, _restricted=False):
     if isinstance(a, tuple) and isinstance(b, tuple) and len(a) == len(b):
         return tuple(mk_ite(c, x, y) for x, y in zip(a, b))
     at = c.as_atom()
+    if at is not None and (at.op in BOOL_OPS or at.uid in BOOLEAN_ATOMS) and isinstance(a, Rat) and isinstance(b, Rat):
+        # `True if c else False` is c (and the mirror image its negation): truth values written out are the condition itself
+        def tv(x):
+            k = x.as_const()
+            if k is not None and k in (0, 1):
+                return bool(k)
+            xa = x.as_atom()
+            if xa is not None and xa.op == "const" and xa.args in (("True",), ("False",)):
+                return xa.args == ("True",)
+            return None
+        ta, tb = tv(a), tv(b)
+        if ta is True and tb is False:
+            return c
+        if ta is False and tb is True:
+            return mk_not(c)
     if at is not None and at.op == "isnone" and isinstance(a, Rat) and isinstance(b, Rat) and isinstance(at.args[0], Rat):
         aa = a.as_atom()
         if aa is not None and aa.op == "const" and aa.args == ("None",) and at.args[0].eq(b):
@@ -737,6 +760,11 @@ def _has_scalar_ite(x) -> bool:
 def _atomic_conds(c: Rat, out: dict):
     at = c.as_atom()
     if at is None:
+        return
+    if at.op == "ite" and all(isinstance(x, Rat) for x in at.args):
+        # a condition that is itself a conditional (`a if t else b` used as a test) is decided by its three parts
+        for x in at.args:
+            _atomic_conds(x, out)
         return
     if at.op in ("and", "or"):
         for x in at.args:
